@@ -2,6 +2,7 @@
 // (hex encoded); for every string the returned Info is reported WITHOUT dereferencing pointers that are
 // not table entries. The stack is pre-filled with a poison pattern so that uninitialised fields show.
 #include <atomic>
+#include <cstdlib>
 #include <cstring>
 #include <mutex>
 #include <thread>
@@ -39,6 +40,8 @@ const char *const kPreMain[] = {"hu_HU.UTF-8", "Hungarian_Hungary", "en_GB", "xx
 struct PreMain {
     std::vector<LocaleInfo::Info> res;
     PreMain() {
+        // only in the harness run that asks for it: a crash here would take every other execution of the process with it
+        if (getenv("LOCALE_PREMAIN") == nullptr) return;
         for (const char *s : kPreMain) res.push_back(LocaleInfo::get(s));
     }
 };
